@@ -58,3 +58,81 @@ def h_pool_ownership(shape):
     finally:
         server.socket.close()
         pool.stop()
+
+
+# ---------------------------------------------------------------------------
+# a failing method on one connection leaves the server able to answer: whatever a
+# registered method raises -- including SystemExit / KeyboardInterrupt /
+# GeneratorExit -- the request handler returns normally with a framed reply
+
+import io  # noqa: E402
+
+from harness.stubs import TokenCodec  # noqa: E402
+from harness.c17 import Handler, ShortReader  # noqa: E402
+
+
+class Boom(Exception):
+    pass
+
+
+FAILURES = {"ValueError": ValueError, "Boom": Boom, "SystemExit": SystemExit, "KeyboardInterrupt": KeyboardInterrupt,
+            "GeneratorExit": GeneratorExit, "RecursionError": RecursionError, "MemoryError": MemoryError}
+
+
+def h_failing_method(shape, rid, arg):
+    codec = TokenCodec().install()
+    config = Config()
+    server = srv.SimpleJSONRPCServer(("localhost", 0), bind_and_activate=False, logRequests=False, config=config)
+    try:
+        calls = []
+
+        def failing(x):
+            calls.append(x)
+            raise FAILURES[shape["exc"]]("stop now")
+
+        def fine(x):
+            return [x]
+
+        server.register_function(failing, "failing")
+        server.register_function(fine, "fine")
+        request = {"method": "failing", "params": [arg]}
+        if shape["form"] == "2.0":
+            request.update({"jsonrpc": "2.0", "id": rid})
+        elif shape["form"] == "1.0":
+            request["id"] = rid
+        else:
+            request["jsonrpc"] = "2.0"
+        outcomes = []
+        for req in (request, {"jsonrpc": "2.0", "id": rid, "method": "fine", "params": [arg]}):
+            body = codec.text_of(req).encode("utf-8")
+            handler = Handler()
+            handler.server = server
+            handler.path = "/"
+            handler.rpc_paths = ()
+            handler.headers = {"content-length": str(len(body))}
+            handler.rfile = ShortReader(body, [])
+            handler.wfile = io.BytesIO()
+            try:
+                handler.do_POST()
+            except BaseException:  # noqa
+                return 1  # the failure escaped the request handler
+            sent = handler.wfile.getvalue()
+            lengths = [v for k, v in handler.sent_headers if k.lower() == "content-length"]
+            if lengths != [str(len(sent))]:
+                return 2
+            outcomes.append((handler.status, codec.table.get(sent.decode("utf-8")) if sent else None))
+        first, second = outcomes
+        if len(calls) != 1:
+            return 3
+        if second[0] != 200 or not isinstance(second[1], dict) or second[1].get("result") != [arg]:
+            return 4  # the next request is not served
+        if shape["form"] == "notify":
+            return PASS + 2 if first[0] == 200 and first[1] is None else 5
+        reply = first[1]
+        if first[0] != 200 or not isinstance(reply, dict) or not isinstance(reply.get("error"), dict):
+            return 6
+        if reply["error"].get("code") != -32603 or reply.get("id") != rid:
+            return 7
+        return PASS
+    finally:
+        server.socket.close()
